@@ -11,10 +11,12 @@ import (
 	"github.com/keep-network/keep-core/internal/verifkit"
 	"github.com/keep-network/keep-core/pkg/chain"
 	"github.com/keep-network/keep-core/pkg/chain/local_v1"
+	"github.com/keep-network/keep-core/pkg/internal/tecdsatest"
 	"github.com/keep-network/keep-core/pkg/net"
 	"github.com/keep-network/keep-core/pkg/operator"
 	"github.com/keep-network/keep-core/pkg/protocol/group"
 	"github.com/keep-network/keep-core/pkg/protocol/state"
+	"github.com/keep-network/keep-core/pkg/tecdsa"
 )
 
 // ---------------------------------------------------------------------------
@@ -157,7 +159,7 @@ func TestVerif_C12_TecdsaSigning(t *testing.T) {
 	r := verifkit.Start(t, "C12", "tecdsa-signing")
 	defer r.Finish()
 	r.SetRule("exhaustive grid: seat layouts (5 seats over operators 2/2/1 interleaved, 3 seats one operator; thorough adds 9 seats 4/3/1/1) x receiver seat x claimed index {0,1..n,n+1,255} x sender key {each operator, outsider, truncated operator key, empty} x session {own, other, own+suffix} x claimed member status {operating, IA, DQ, sibling seat DQ}; delivered to each of the 11 message-storing tECDSA signing states for each of the 10 message types; non-trivial = claimed index not held by the sender key, foreign session, or non-operating sender")
-	r.Assume("local_v1 signing maps a public key to the hex of its bytes; operator keys are freshly generated secp256k1 keys (values do not enter the verdict); the member is built as a struct literal without a key share and TSS parties are not constructed (admission is decided before any TSS computation)")
+	r.Assume("local_v1 signing maps a public key to the hex of its bytes; operator keys are freshly generated secp256k1 keys (values do not enter the verdict); the member is built by newMember with a fixture key share (content irrelevant) and TSS parties are not constructed (admission is decided before any TSS computation)")
 
 	signing := local_v1.Connect(5, 3).Signing()
 	newKey := func() []byte {
@@ -287,7 +289,16 @@ func TestVerif_C12_TecdsaSigning(t *testing.T) {
 		}},
 	}
 
-	var acted, rejected int64
+	// members are built by the production constructor (a key share is needed
+	// by it; its content does not enter admission)
+	shareData, shareErr := tecdsatest.LoadPrivateKeyShareTestFixtures(1)
+	if shareErr != nil || len(shareData) == 0 {
+		r.Inconclusive(fmt.Sprintf("could not load a key share fixture: %v", shareErr))
+		return
+	}
+	share := tecdsa.NewPrivateKeyShare(shareData[0])
+
+	var acted, rejected, followUps int64
 	grid := c12Grid(layouts, keysOf)
 	verifkit.Parallel(len(states), 0, func(si int) {
 		s := states[si]
@@ -295,13 +306,8 @@ func TestVerif_C12_TecdsaSigning(t *testing.T) {
 			rp := s.name + "/" + mt.name
 			for ci, c := range grid {
 				n := len(c.layout.seats)
-				m := &member{
-					logger:              &testutils.MockLogger{},
-					id:                  group.MemberIndex(c.receiver),
-					group:               group.NewGroup(n-(n/2+1), n),
-					membershipValidator: validators[c.layout.name],
-					sessionID:           c12OwnSession,
-				}
+				m := newMember(&testutils.MockLogger{}, group.MemberIndex(c.receiver), n, n-(n/2+1),
+					validators[c.layout.name], c12OwnSession, nil, share)
 				c12MarkStatus(m.group, c)
 				st := s.fn(m)
 				p := mt.fn(group.MemberIndex(c.claimed), c12Session(c.session))
@@ -328,6 +334,47 @@ func TestVerif_C12_TecdsaSigning(t *testing.T) {
 				case !got && legit:
 					r.Violation("tecdsa-signing:"+rp+":rejected-legitimate", "state ignored a fully legitimate message", desc, map[string]interface{}{"legitimate": legit, "acted_on": got})
 				}
+				// admission must not depend on what the same member admitted or
+				// refused before: a follow-up on the same state object
+				if rerr == nil && c.session == "own" && (c.status == "operating" || c.status == "siblingDQ") {
+					switch {
+					case legit && got:
+						// the genuine holder spoke; now other keys claim the same index
+						for _, k := range keysOf(c.layout) {
+							if k.op >= 0 && c.layout.seats[c.claimed-1] == k.op {
+								continue
+							}
+							p2 := mt.fn(group.MemberIndex(c.claimed), c12OwnSession)
+							d2 := desc + " then-same-index-from-key=" + k.name
+							if r.Guard("tecdsa-signing:"+rp+":", d2, func() { _ = st.Receive(&c12Msg{p2, k.pub}) }) {
+								break
+							}
+							atomic.AddInt64(&followUps, 1)
+							for _, h := range st.GetAllReceivedMessages(p2.Type()) {
+								if h.Payload() == interface{}(p2) {
+									r.Violation("tecdsa-signing:"+rp+":accepted-after-genuine:index-not-held", "after a genuine message of a member, a message claiming the same index under a key that does not hold it was stored", d2, nil)
+								}
+							}
+						}
+					case !legit && why == "index-not-held" && c.claimed >= 1 && c.claimed <= n && c.claimed != c.receiver:
+						// a spoof was refused; the genuine holder must still be heard
+						hk := opKeys[c.layout.seats[c.claimed-1]]
+						p2 := mt.fn(group.MemberIndex(c.claimed), c12OwnSession)
+						d2 := desc + " then-genuine-holder"
+						if !r.Guard("tecdsa-signing:"+rp+":", d2, func() { _ = st.Receive(&c12Msg{p2, hk}) }) {
+							atomic.AddInt64(&followUps, 1)
+							found := false
+							for _, h := range st.GetAllReceivedMessages(p2.Type()) {
+								if h.Payload() == interface{}(p2) {
+									found = true
+								}
+							}
+							if !found {
+								r.Violation("tecdsa-signing:"+rp+":rejected-legitimate-after-spoof", "after a refused spoof of an index, the genuine holder's message was ignored", d2, nil)
+							}
+						}
+					}
+				}
 				if si == 5 && mt.name == "tssRoundFourMessage" && (ci == 7 || why == "" && c.status == "siblingDQ" && c.receiver == 2 && c.claimed == 1 || why == "own-index" && c.receiver == 3 && c.session == "own" && c.status == "operating") {
 					r.Sample(map[string]interface{}{"case": desc, "legitimate": legit, "acted_on": got})
 				}
@@ -339,5 +386,6 @@ func TestVerif_C12_TecdsaSigning(t *testing.T) {
 	r.Count("receive_point_x_message_type", int64(len(states)*len(msgTypes)))
 	r.Count("grid_cases_per_receive_point", int64(len(grid)))
 	r.Count("acted_on", acted)
+	r.Count("follow_up_messages_on_same_state", followUps)
 	r.Count("ignored", rejected)
 }
